@@ -192,6 +192,8 @@ type rsRun struct {
 	anomaly int
 	pair    *rsPair
 	subOpt  bool
+	ds      *dsEnv // kind "ds": the durable-streams server and the offsets' store, kept across restarts
+	dsSubs  *eb.MemoryStore
 }
 
 // two publishers overlapping: while the live handler is handling v1 a second goroutine publishes v2 and gets as far as
@@ -204,6 +206,10 @@ type rsPair struct {
 }
 
 func (r *rsRun) open() {
+	if r.kind == "ds" {
+		r.openDS()
+		return
+	}
 	switch r.kind {
 	case "mem":
 		if r.inner == nil {
@@ -311,6 +317,9 @@ func (r *rsRun) subscribe(id int, inner [][3]int) (err error) {
 
 // positions of the saved offsets, read from the bundled store directly
 func (r *rsRun) savedPositions() []T {
+	if r.kind == "ds" {
+		return r.savedPositionsDS()
+	}
 	ctx := context.Background()
 	evs, _, err := r.inner.Read(ctx, eb.OffsetOldest, 0)
 	if err != nil {
